@@ -1,13 +1,12 @@
-"""regenerate seeded/<id>/meta.json skeletons and the summary table for DESIGN.md 0.6 from seeded/*/verify.txt and seeded/results.json"""
+"""regenerate seeded/<id>/meta.json and the summary table for DESIGN.md 0.6 from seeded/*/verify.txt (my own confirmation
+of demo + repository suite) and seeded/*/check.txt (the quick checks run against the change by tools/eval_all_seeded.sh)"""
 import os, json, glob, re
 root = os.path.join(os.path.dirname(os.path.abspath(__file__)), '..', 'seeded')
-results = {}
-rp = os.path.join(root, 'results.json')
-if os.path.isfile(rp):
-    results = json.load(open(rp))
 rows = []
 for d in sorted(glob.glob(os.path.join(root, '*/'))):
     sid = os.path.basename(d.rstrip('/'))
+    if not os.path.isfile(os.path.join(d, 'patch.diff')):
+        continue
     prop = sid.split('_')[0]
     ver = {}
     vp = os.path.join(d, 'verify.txt')
@@ -21,15 +20,58 @@ for d in sorted(glob.glob(os.path.join(root, '*/'))):
     if os.path.isfile(np_):
         notes = open(np_).read()
     first = next((l.strip('# ').strip() for l in notes.split('\n') if l.strip()), '')
-    meta = {'id': sid, 'breaks_property': prop, 'summary': first[:200],
-            'needs_to_manifest': 'see notes.md',
+    first = re.sub(r'^(C\d+\s*[/-]?\s*)?[Ss]eed\s*\d+\s*[-:–—]*\s*', '', first)
+    needs = ''
+    m = re.search(r'(?is)(what (is|it) need[^\n]*|needed to manifest[^\n]*|what exactly is needed[^\n]*)\n?(.*?)(\n\s*\n|\Z)', notes)
+    if m:
+        needs = re.sub(r'\s+', ' ', (m.group(1) + ' ' + m.group(3))).strip()[:600]
+    checks = {}
+    cp = os.path.join(d, 'check.txt')
+    if os.path.isfile(cp):
+        cur = None
+        for ln in open(cp):
+            m = re.match(r'^=== (\S+) / (\S+)', ln)
+            if m:
+                cur = m.group(2)
+                checks[cur] = {'rc': None, 'formulas': [], 'drift': 0}
+                continue
+            if cur is None:
+                continue
+            m = re.search(r'finished rc=(\d+) in (\d+)s', ln)
+            if m:
+                checks[cur]['rc'] = int(m.group(1))
+                checks[cur]['wall_s'] = int(m.group(2))
+            for f in re.findall(r"'(C\d\d\.[A-Za-z#0-9]+)'", ln):
+                if 'formula' in ln and f not in checks[cur]['formulas']:
+                    checks[cur]['formulas'].append(f)
+            if ln.startswith('MODEL-DRIFT'):
+                checks[cur]['drift'] += 1
+            m = re.search(r'^\s+(\w+\.\w+): \{', ln)
+            if m and m.group(1) not in checks[cur]['formulas']:
+                checks[cur]['formulas'].append(m.group(1))
+    caught = [p for p, c in checks.items() if c['rc'] == 1]
+    if caught:
+        verdict = 'caught by ' + '; '.join('./check %s (%s)' % (p, ', '.join(checks[p]['formulas'][:3]) or 'violation') for p in caught)
+        missed = [p for p, c in checks.items() if c['rc'] == 0]
+        if missed:
+            verdict += '; not by ./check ' + ', '.join(missed)
+    elif checks:
+        bits = []
+        for p, c in checks.items():
+            bits.append('./check %s rc=%s%s' % (p, c['rc'], ' (model drift only)' if c['drift'] else ''))
+        verdict = 'NOT caught: ' + '; '.join(bits)
+    else:
+        verdict = 'not run yet'
+    meta = {'id': sid, 'breaks_property': prop, 'summary': first[:240],
+            'needs_to_manifest': needs or 'see notes.md',
             'confirmed_by_me': {'demo_passes_on_clean_tree': ver.get('clean_rc') == '0', 'demo_fails_with_patch': ver.get('patched_rc') not in (None, '0'),
-                                'repo_suite_passes_with_patch': ver.get('suite_rc') == '0', 'repo_head': ver.get('head')},
-            'checks_run': results.get(sid, {})}
+                                'repo_suite_passes_with_patch': ver.get('suite_rc') == '0', 'repo_head': ver.get('head'),
+                                'how': 'tools/verify_seeded.sh: scratch worktree of /repo HEAD; demo.py without and with patch.diff; repository suite with patch.diff'},
+            'checks_run': checks, 'verdict': verdict}
     json.dump(meta, open(os.path.join(d, 'meta.json'), 'w'), indent=1)
-    r = results.get(sid, {})
-    rows.append('| %s | %s | %s | %s |' % (sid, first[:90].replace('|', '/'), 'yes' if meta['confirmed_by_me']['repo_suite_passes_with_patch'] and meta['confirmed_by_me']['demo_fails_with_patch'] else 'partly',
-                                       r.get('verdict', 'not run yet')))
-print('| seeded change | what it does | confirmed | caught by |')
+    conf = meta['confirmed_by_me']
+    ok = conf['demo_passes_on_clean_tree'] and conf['demo_fails_with_patch'] and conf['repo_suite_passes_with_patch']
+    rows.append('| %s | %s | %s | %s |' % (sid, first[:100].replace('|', '/'), 'yes' if ok else ('pending' if not ver else 'partly: ' + json.dumps(ver)), verdict.replace('|', '/')))
+print('| seeded change | what it does | demo + suite confirmed by me | quick checks |')
 print('|---|---|---|---|')
 print('\n'.join(rows))
